@@ -183,9 +183,19 @@ func (fr *frame) runDefer(d *deferred) {
 
 // isEnginePanic reports whether r must propagate through the target program's
 // defer/recover machinery untouched.
+var dbgFrame *frame
+
+func dbgWhere() string {
+	fr := dbgFrame
+	if fr == nil || fr.curInstr == nil {
+		return "?"
+	}
+	return fmt.Sprintf("%s [%s] at %s", fr.fn, fr.curInstr, fr.fn.Prog.Fset.Position(fr.curInstr.Pos()))
+}
+
 func isEnginePanic(r interface{}) bool {
 	switch r.(type) {
-	case engineError, pathAbort, goroutinePanic:
+	case engineError, pathAbort, goroutinePanic, threadKilled:
 		return true
 	case *runtime.TypeAssertionError:
 		return true
@@ -348,6 +358,9 @@ func visitInstr(fr *frame, instr ssa.Instruction) continuation {
 		}
 		old := fr.i.spawned
 		fr.i.spawned = append(old[:len(old):len(old)], spawnRec{name, args, fn})
+		if sch != nil {
+			sch.spawn(name, fn, args)
+		}
 
 	case *ssa.MakeChan:
 		fr.env[instr] = makeChan(int(asInt64(fr.get(instr.Size))))
@@ -495,24 +508,50 @@ func visitInstr(fr *frame, instr ssa.Instruction) continuation {
 	case *ssa.Select:
 		// modelled channels: the first ready case in source order wins; otherwise default;
 		// a blocking select with nothing ready ends the path ("would block").
-		chosen := -1
-		for i, st := range instr.States {
-			ch := fr.get(st.Chan).(*chanv)
-			if st.Dir == types.RecvOnly {
-				if ch.ready() {
-					chosen = i
-					break
+		firstReady := func() int {
+			for i, st := range instr.States {
+				ch := fr.get(st.Chan).(*chanv)
+				if st.Dir == types.RecvOnly {
+					if ch.ready() {
+						return i
+					}
+				} else if sch != nil {
+					if ch.sendReady() {
+						return i
+					}
+				} else if ch != nil {
+					return i
 				}
-			} else if ch != nil {
-				chosen = i
-				break
 			}
+			return -1
 		}
+		chosen := firstReady()
 		if chosen < 0 && instr.Blocking {
-			if tryRunGoroutines() {
-				return visitInstr(fr, instr)
+			if sch != nil {
+				// thread mode: park until a case becomes ready; while parked this thread counts
+				// as a waiting receiver on its receive cases (lets unbuffered senders proceed)
+				var waitOn []*chanv
+				for _, st := range instr.States {
+					if ch := fr.get(st.Chan).(*chanv); ch != nil && st.Dir == types.RecvOnly {
+						ch.recvWaiters++
+						waitOn = append(waitOn, ch)
+					}
+				}
+				func() {
+					defer func() {
+						for _, ch := range waitOn {
+							ch.recvWaiters--
+						}
+					}()
+					sch.block("select", func() bool { return firstReady() >= 0 })
+				}()
+				chosen = firstReady()
+			} else {
+				if tryRunGoroutines() {
+					return visitInstr(fr, instr)
+				}
+				panic(pathAbort{"select would block", false})
 			}
-			panic(pathAbort{"select would block", false})
 		}
 		recvOk := false
 		var recv value
@@ -808,6 +847,7 @@ func runFrame(fr *frame) {
 				}
 			}
 			fr.curInstr = instr
+			dbgFrame = fr
 			if visitInstr(fr, instr) == kReturn {
 				return
 			}
